@@ -32,7 +32,7 @@ class _Break(Exception):
 class Obj:
     """symbolic record with known fields"""
 
-    def __init__(self, name, **fields):
+    def __init__(self, name, /, **fields):
         self.name = name
         self.fields = fields
 
